@@ -58,7 +58,7 @@ theorem mask_of_done (i : Inst) (hwf : WF i) (s : State) (h : Reach env i s) (hd
 theorem step_of_done (i : Inst) (s : State) (a : Nat) (hd : env.done i s = true) :
     env.step i s a = s := by
   simp only [env] at hd
-  simp [env, step, hd]
+  simp [env, step_eq, hd]
 
 theorem done_stable (i : Inst) (s : State) (a : Nat) (hd : env.done i s = true) :
     env.done i (env.step i s a) = true := by
@@ -130,7 +130,7 @@ theorem mu_makeStepAt {i : Inst} (hwf : WF i) {s : State} (hinv : Inv i s) {j m 
 theorem mu_decreases {i : Inst} (hwf : WF i) {s : State} (h : Inv2 i s) (hd : s.done = false) {a : Nat}
     (ha : a < nAct i) (hm : mask i s a = true) : mu i (step i s a) < mu i s := by
   obtain ⟨hinv, _⟩ := h
-  unfold step
+  rw [step_eq]
   simp only [hd, Bool.false_eq_true, if_false]
   by_cases ha0 : a = 0
   · subst ha0
@@ -174,7 +174,7 @@ theorem unsched_step {i : Inst} (hwf : WF i) {s : State} (h : Inv2 i s) (hd : s.
     (ha : a < nAct i) (hm : mask i s a = true) :
     unsched i (step i s a) + (if a = 0 then 0 else 1) = unsched i s := by
   obtain ⟨hinv, _⟩ := h
-  unfold step
+  rw [step_eq]
   simp only [hd, Bool.false_eq_true, if_false]
   by_cases ha0 : a = 0
   · subst ha0
